@@ -31,12 +31,12 @@ Qed.
 Lemma p1_ok o i s k : (k < length (i_shards i))%nat ->
   si_ok (nth_si (st_p1 (run_stages o i s)) k) = insync i k.
 Proof.
-  intros Hk. rewrite stages_p1, stages_p0. rewrite (proj1 (gc_flags _ _ _ _)).
+  intros Hk. rewrite stages_p1, stages_p0. rewrite (proj1 (recover_flags _ _)). rewrite (proj1 (gc_flags _ _ _ _)).
   now rewrite nth_si_p0.
 Qed.
 
 Lemma p1_length o i s : length (st_p1 (run_stages o i s)) = length (i_shards i).
-Proof. rewrite stages_p1, gc_length, stages_p0. apply map_length. Qed.
+Proof. rewrite stages_p1, recover_length, gc_length, stages_p0. apply map_length. Qed.
 
 (* ---- events of the whole cycle ---- *)
 Lemma cycle_events_sub o i sch e :
@@ -317,7 +317,7 @@ Proof.
   destruct (in_dec N.eq_dec h (keys_at (gc o (i_active i) p0) k)) as [Hstill|Hcollected].
   - exfalso. rewrite holds_if_planned in Hgone; [discriminate | assumption | assumption |].
     unfold final_plan. apply (le_keys _ _ (stages_le_14 o i (sst_of sch))).
-    rewrite stages_p1, stages_p0. exact Hstill.
+    rewrite stages_p1, stages_p0, recover_keys. exact Hstill.
   - destruct (gc_fold_removed_times o (i_active i) (indices p0) p0 k h c (nodup_p0 i Hnd) Hc0 Hcollected Hact)
       as [Ht [j [c' [Hne [Hok [Hf [Ht' Hst]]]]]]].
     split; [assumption|]. exists j, c'.
